@@ -26,7 +26,7 @@ func init() {
 			"(e) aggregators[i] is computed from the i-th signature and i-th committee size with the TARGET_AGGREGATORS_PER_COMMITTEE divisor clamped to >= 1. " +
 			"(f) a validator's info is left out of the per-committee record only when an aggregator is already recorded for that slot and committee, and a recorded aggregator is never replaced; " +
 			"(g) the controller's stored subscription info is replaced only by the result of a successful Subscribe and deleted only for an epoch before the chain's present one. " +
-			"Added with the third seeding round: (i) the subscription info returned to the controller is calculated from all merged duties of the response and the accounts passed in; (d, extended) every branch deciding whether an attestation's aggregation job is reached is a presence flag, nil/error test, emptiness test, IsAggregator, or slot < current slot. Added with the fourth seeding round: (k) fields named after chain constants are filled from them. Added with the fifth seeding round: (x) the cross-cutting rules inside the subscriber packages. Added with the sixth seeding round and the false-alarm regression: (y) C03.o and C03.f are taken over (contexts handed to the scheduler outlive the handler; a changed current dependent root refreshes the next epoch's attester duties); (e) accepts the one-shot hash and max() clamp. Added with the eighth seeding round: (m) a return of attester.Attest that carries attestations carries a nil error (the controller schedules no aggregation after an error); (y) C06.k is taken over. NOT decided: the selection arithmetic against the specification (hash mod n), timing.",
+			"Added with the third seeding round: (i) the subscription info returned to the controller is calculated from all merged duties of the response and the accounts passed in; (d, extended) every branch deciding whether an attestation's aggregation job is reached is a presence flag, nil/error test, emptiness test, IsAggregator, or slot < current slot. Added with the fourth seeding round: (k) fields named after chain constants are filled from them. Added with the fifth seeding round: (x) the cross-cutting rules inside the subscriber packages. Added with the sixth seeding round and the false-alarm regression: (y) C03.o and C03.f are taken over (contexts handed to the scheduler outlive the handler; a changed current dependent root refreshes the next epoch's attester duties); (e) accepts the one-shot hash and max() clamp. Added with the eighth seeding round: (m) a return of attester.Attest that carries attestations carries a nil error (the controller schedules no aggregation after an error); (y) C06.k is taken over. Added with the eleventh seeding round: (d, extended) the epoch's subscription record is read after Attest has returned. NOT decided: the selection arithmetic against the specification (hash mod n), timing.",
 		Technique: "AST loop-exit analysis, SSA guard/edge-deletion queries, provenance of composite-literal fields and call arguments, index-space analysis of per-validator arrays",
 		Rule:      "one obligation per loop (a,d), per literal field (b,d), per indexed access (c), per store (e); non-trivial = the anchor construct exists and was analysed",
 	})
@@ -278,6 +278,26 @@ func runC14(p *core.Prog, r *core.Report, tier string) {
 			in := ci.(ssa.Instruction)
 			for _, l := range loopsContainingPos(p, f, ci.Pos()) {
 				noEarlyExit(p, r, "C14.d", l, "loop over the slot's attestations")
+			}
+			// the subscription record that decides who aggregates is read after the attestation has been made: a read
+			// taken ahead of the (blocking) Attest call misses a subscription that completes meanwhile (start-up, duty
+			// refresh), and the aggregator recorded in it gets no job
+			for _, at := range core.CallsNamed(f, "Attest") {
+				if !at.Common().IsInvoke() {
+					continue
+				}
+				core.EachInstr(f, func(x ssa.Instruction) {
+					lk, ok := x.(*ssa.Lookup)
+					if !ok {
+						return
+					}
+					id, ok := core.FieldOfValue(lk.X)
+					if !ok || id.Name != "subscriptionInfos" {
+						return
+					}
+					r.Check(core.InstrDominates(at.(ssa.Instruction), lk), "C14.d", core.FnKey(f)+"|subscription-record-read-after-attesting", p.Pos(lk.Pos()), "the epoch's subscription record is read after Attest has returned",
+						"the epoch's subscription record is read before the attestation is made (a blocking call): a subscription stored or refreshed while Attest runs is not seen, and the aggregator it records gets no aggregation job")
+				})
 			}
 			// the only reasons for which an attestation of the loop gets no aggregation job
 			checkSkipConditions(p, r, ds, f, in)
